@@ -301,7 +301,7 @@ def r8(tree, rep, tier):
     from .. import a5common
     sums = a5common.explorations(tree, tier, rep)
     a5common.fill_extra(rep, sums)
-    a5common.report(rep, "C11.R8", sums, a5common.INTERNAL + ("two-connections", "second-live-connector", "pending-outlives-connector"))
+    a5common.report(rep, "C11.R8", sums, a5common.INTERNAL + ("two-connections", "second-live-connector", "pending-outlives-connector", "connection-not-released"))
     for envname, s in sums.items():
         rep.check("C11.R8", "two-party environment '%s': from each of the %d reachable joint states in which nobody has stopped, a state is reachable "
                   "in which both Managers are connected over the same live link (%d such states)" % (envname, s.running_states, s.converged_states),
@@ -323,6 +323,9 @@ def run(tree, rep, tier):
     # connector_connection_made: the keep-alive timer must accept got_connection in whatever state a loss left it
     from .C10 import timer_accepts_next_connection
     timer_accepts_next_connection(tree, rep, "C11.R7")
+    # C11.R6 relies on the one-shot observer behind when_disconnected() calling back in a later turn, also when it has already fired
+    from .C03 import observers_fire_eventually
+    observers_fire_eventually(tree, rep, "C11.R6")
     r8(tree, rep, tier)
 
 
